@@ -479,6 +479,10 @@ func (f *Func) reachTarget(
 					}
 				}
 
+				// The last viewed value must include a value we just took
+				// from a typed output above.
+				state.Value = v.Value
+
 				// If we have a valid value set, then put it on our named list.
 				if v.Value.IsValid() {
 					state.NamedValue[v.Name] = v.Value
